@@ -33,6 +33,10 @@ Inductive expr : Type :=
 | EAttr (a : attr)                         (* p.a                                   *)
 | EInt (z : Z) | EStr (s : str) | EBool (b : bool) | ENone     (* literals           *)
 | EParam (i : nat) (t : option vty)        (* external name; t = None: its value is None (vartype NoneType) *)
+| ECol (i : nat) (t : vty) (nullable : bool)   (* the value of a scalar subquery (count / sum / min / max over a collection, Model/C01Form.v),
+                                              held by column i of the environment: an ExprMonad, not an attribute *)
+| ESub (i : nat)                           (* the truth value of a subquery condition (EXISTS / IN over a collection, Model/C01Coll.v),
+                                              held by column i of the environment *)
 | EArith (op : aop) (a b : expr)           (* a + b, a - b, a * b, a // b, a % b, a / b *)
 | ENeg (a : expr) | EAbs (a : expr)        (* -a, abs(a)                            *)
 | EConcat (a b : expr)                     (* a + b on strings                      *)
@@ -96,6 +100,8 @@ Fixpoint ty_of (e : expr) : option ty :=
   | ENone => Some TNone
   | EParam _ (Some t) => Some (TV t)
   | EParam _ None => Some TNone
+  | ECol _ t _ => Some (TV t)
+  | ESub _ => Some TCond
   | EArith _ a b =>
       match ty_of a, ty_of b with
       | Some (TV TInt), Some (TV TInt) | Some (TV TInt), Some (TV TBool) | Some (TV TBool), Some (TV TInt) => Some (TV TInt)
@@ -118,8 +124,8 @@ Fixpoint ty_of (e : expr) : option ty :=
       match ty_of c, ty_of t, ty_of f with
       | Some tc, Some (TV x), Some (TV y) =>
           match tc with
-          | TCond | TV TStr | TV TBool => if vty_eqb x y then Some (TV x) else None
-          | _ => None           (* an int test makes the real translator raise (NumericMixin.nonzero result has no .aggregated) *)
+          | TCond | TV _ => if vty_eqb x y then Some (TV x) else None      (* an int test raised before repo commit 809623a *)
+          | _ => None
           end
       | _, _, _ => None
       end
@@ -246,6 +252,8 @@ Fixpoint reval (e : expr) : pyv :=
   | EBool b => PBool b
   | ENone => PNone
   | EParam i _ => param_val en i
+  | ECol i _ _ => attr_val en i
+  | ESub i => attr_val en i
   | EArith op a b =>
       match int_of (reval a), int_of (reval b) with
       | Some x, Some y => PInt (py_arith op x y)
@@ -300,6 +308,8 @@ Fixpoint env_ok (en : env) (e : expr) : bool :=
   | EAttr a => has_vty (attr_val en (a_id a)) (a_ty a) && (a_null a || negb (is_none (attr_val en (a_id a))))
   | EParam i (Some t) => has_vty (param_val en i) t && negb (is_none (param_val en i))
   | EParam i None => is_none (param_val en i)
+  | ECol i t n => has_vty (attr_val en i) t && (n || negb (is_none (attr_val en i)))
+  | ESub i => match attr_val en i with PBool _ | PNone => true | _ => false end
   | EInt _ | EStr _ | EBool _ | ENone => true
   | EArith _ a b | EConcat a b | ECmp _ a b | EAnd a b | EOr a b => env_ok en a && env_ok en b
   | ENeg a | EAbs a | ELen a | ENot a | EIn _ a _ => env_ok en a
@@ -318,7 +328,7 @@ Definition cond_typed (e : expr) : bool := match ty_of e with Some TCond => true
 Fixpoint clean (en : env) (e : expr) : bool :=
   let operand x := clean en x && (cond_typed x || negb (is_none (reval true en x))) in
   match e with
-  | EAttr _ | EInt _ | EStr _ | EBool _ | ENone | EParam _ _ => true
+  | EAttr _ | EInt _ | EStr _ | EBool _ | ENone | EParam _ _ | ECol _ _ _ | ESub _ => true
   | EArith _ a b | EConcat a b | ECmp _ a b => clean en a && clean en b
   | ENeg a | EAbs a | ELen a | EIn _ a _ => clean en a
   | ENot a => clean en a                                   (* `not value` is translated exactly *)
